@@ -1218,6 +1218,10 @@ class Wavefront:
 
         field_at_lyot = self.data - field.data
 
+        if isinstance(lyot, Wavefront):
+            # the stop is applied as an array; Wavefront * ndarray would wrap the result in a second Wavefront
+            lyot = lyot.data
+
         if lyot is not None:
             field_after_lyot = lyot * field_at_lyot
         else:
